@@ -17,6 +17,9 @@ CHECKS = {
  "C02": dict(text="Same TLC-enumerated programs as C01 restricted to JSON probe documents; the driver prints schema() and schemaWithContext() under three ref-template/container configurations and logs the schemas and exported definitions as data; TLC (Trace_Schema.tla + JsonSchema.tla) evaluates well-formedness against the 2020-12 meta-schema rules for the emitted vocabulary, $ref resolution, and Valid(d, schema) for every document, and relates it to the logged validate() outcome and to StrictMem; non-JSON types must throw in every mode.",
              ref="4/C02", note="Trusted: TLC, my transcription of JSON Schema (calibrated on every (schema, document) pair against python jsonschema Draft 2020-12; a disagreement is a tool error), python re for the pattern keyword, format read as an assertion of the registered custom formats.",
              tech="TLC-enumerated programs; logged schemas judged by a TLA+ JSON Schema semantics (calibrated with python jsonschema)"),
+ "C16": dict(text="SchemaCtx.tla is the SchemaPrintingContext state machine (collected definitions, in-progress marks, one action per schemaWithContext call, traversal transcribed from BaseRefRuntype.schema / ensureContextualDefinition incl. exceptions). TLC checks the design invariant (nothing left in progress, refs closed, definitions fresh and order independent, same outcome as a fresh context) on every call sequence up to the bound, with and without overrides; every sequence is replayed on a real context under three configurations and Trace_Ctx.tla requires each logged call to be a Call(p) step of the model (same collected names, same outcome) and judges the logged definitions against fresh-context definitions, $ref resolution and multiset-equality of exports.",
+             ref="4/C16", note="Trusted: TLC; the fixed project of SchemaCtx.tla stands for 'sets of parsers sharing named and recursive types'; JSON equality of definitions.",
+             tech="TLC model checking of the context state machine + replay of every call sequence + trace validation"),
 }
 NA = []
 def main():
